@@ -4,6 +4,18 @@ from unit import Unit, FnSpec
 S = "tacd/src/openssl_server.rs"
 
 
+def incoming_rw(m):
+    import re
+    ad = "".join((m.group("ad") or "").split())
+    if not ad:
+        return m.group(0)
+    if re.fullmatch(r"\.flatten\(\)|\.filter_map\(Result::ok\)|\.filter_map\(\|(\w+)\|\1\.ok\(\)\)", ad):
+        return "crate::vnet::accepted(listener.incoming())"
+    if re.fullmatch(r"\.map_while\(Result::ok\)|\.take_while\(Result::is_ok\)|\.map_while\(\|(\w+)\|\1\.ok\(\)\)|\.take_while\(\|(\w+)\|\2\.is_ok\(\)\)", ad):
+        return ("crate::vnet::until_first_error(listener.incoming())" if "map_while" in ad else "crate::vnet::results_until_first_error(listener.incoming())")
+    return m.group(0)
+
+
 def build():
     u = Unit("tacd", "tacd")
     u.prelude("stdx", "tacd_shims")
@@ -26,6 +38,8 @@ def build():
          "|_ssl: &mut ssl::SslRef, client: &[u8]| -> (sel: std::result::Result<&[u8], AlpnError>)\n"
          "            ensures (match sel { Ok(p) => p@ == ssl::acme_tls_1() && ssl::wire_offers(client@, ssl::acme_tls_1()),\n"
          "                                 Err(e) => e == AlpnError::ALERT_FATAL && !ssl::wire_offers(client@, ssl::acme_tls_1()) }) //@C16.alpn_callback\n        {"),
-        ("T-ITER", r"for stream in listener\.incoming\(\)", "for stream in listener.incoming()", 2),
+        # the listener's stream of connection attempts, possibly behind an iterator adapter: one that keeps every accepted
+        # connection, or one that stops at the first failed accept (then the accept loop ends on an error of one connection)
+        ("T-ITER", r"listener\.incoming\(\)(?P<ad>\s*\.\s*\w+\((?:[^()]|\([^()]*\))*\))?", incoming_rw, 2),
     ], at=[("before_stmt_re", r"let \w+ = &listen_addr\[", 1, 'proof { reveal_strlit("unix:"); }')])})
     return u
